@@ -6,22 +6,37 @@ from common import sh2
 LEVEL = "proof"
 MANIFEST = {
     "technique": "Coq proof over a hand-written Gallina model of the bits package + differential correspondence (extracted OCaml vs Go)",
-    "level_text": "Theorems (coq/c13/C13Theorems.v), for all byte strings and all write/read op sequences (no length bound): the "
-                  "EBSP writer state machine equals the one-shot escape spec, escape output has no forbidden triple, every 00 00 03 is "
-                  "an inserted escape and every inserted byte is required, unescape inverts escape; fixed-width (<= 32 bit, value fits), "
-                  "flag, ue (< 2^32) and se values written with the EBSP writer + rbsp_trailing_bits are read back identically, "
-                  "MoreRbspData is then false without moving and ReadRbspTrailingBits accepts the trailing bits (and rejects a leading 0 or "
-                  "a second 1); counters report positions in the escaped stream; Writer / FixedSliceWriter.WriteBits+FlushBits round-trip "
-                  "through Reader; FixedSliceWriter never exceeds its capacity, its bit methods write nothing after the first error and "
-                  "equal the plain Writer when there is room; the byte-level Write* methods and ByteWriter emit big-endian encodings, "
-                  "ByteWriter cut exactly at the underlying writer's limit with the error set exactly then. "
-                  "Only explored (correspondence + search on the real code, not proved): ue values 2^32..2^48, Reader.ReadSigned, "
-                  "reads of width 0, behaviour after a read error. The model is tied to /repo on every run by running it "
-                  "(extracted) against the real bits package on exhaustive small byte strings and random op sequences.",
+    "level_text": "Theorems (coq/c13/C13Theorems.v, 46, no length bound on byte strings or op sequences): the EBSP writer state machine "
+                  "equals the one-shot escape spec, escape output has no forbidden triple, every 00 00 03 is an inserted escape and every "
+                  "inserted byte is required, unescape inverts escape. Exact domain of the 64-bit accumulators: Write(v, n) appends exactly "
+                  "the n low bits whenever pending + n <= 64 (every n <= 57 at any alignment, n = 0 appends nothing, up to 64 at a byte "
+                  "boundary), a wider value is masked, never spilled; Read(n) is exact for n <= 57; witnesses show both bounds tight "
+                  "(7 pending bits + Write(1, 58) corrupts the previous value, Read(58) after 7 bits loses its top bit). Exp-Golomb: the "
+                  "repaired WriteExpGolomb (repo commit 9ec0951) codes every value <= 2^57 - 2 exactly and refuses every larger one with the "
+                  "error set and nothing written (before the repair 2^57 - 1 after 7 pending bits silently corrupted the value written "
+                  "before it - theorem C13_ue_bound_refuted on the old model - and the maximal uint looped forever); the reader decodes "
+                  "every code up to 2^58 - 2; the signed mapping is exact below the bound and differs from the standard's only at "
+                  "codeNum 2^64 - 1 (uint wrap, Go returns 0). Round trip over that exact domain (widths <= 57, ue <= 2^57 - 2, se) "
+                  "through the error-aware writer + rbsp_trailing_bits, MoreRbspData false there without moving, ReadRbspTrailingBits "
+                  "accepts / rejects exactly; counters report positions in the escaped stream. EBSPWriter and Writer over an io.Writer "
+                  "that fails after k bytes deliver exactly the first k bytes of the fault-free output, AccError is set exactly when the "
+                  "output was cut, the first error is kept and every later call is a no-op on the whole state. Readers: after the first "
+                  "error every read (Read, ReadFlag, ReadExpGolomb, ReadSignedGolomb, ReadBytes, MoreRbspData, ReadRbspTrailingBits, "
+                  "Reader.Read/ReadFlag/ReadSigned) returns the zero value and leaves error, accumulator and counters untouched; the read "
+                  "that fails returns 0 having consumed every input byte, and fails exactly when fewer than n bits are left. Writer / "
+                  "FixedSliceWriter.WriteBits+FlushBits round-trip through Reader; FixedSliceWriter capacity / stickiness / byte methods, "
+                  "ByteWriter prefix-at-limit. Only explored (correspondence + search on the real code, not proved): widths 58..70 at "
+                  "arbitrary alignment beyond the two witnesses, Reader.ReadSigned's sign extension (64-bit arithmetic modelled, "
+                  "two's-complement oracle in the search), reads of Exp-Golomb prefixes longer than 57 bits (malformed streams). The model "
+                  "is tied to /repo on every run by running it (extracted) against the real bits package on exhaustive small byte "
+                  "strings, every width 0..70 after every number of pending bits, and random op sequences.",
     "level_note": "Trusted: Coq kernel, extraction (ExtrOcamlBasic), the OCaml/Go glue, and the correspondence being only as good as "
-                  "its generated inputs. io.Reader failures other than EOF are not modelled; the only failing io.Writer modelled is one "
-                  "that accepts a fixed number of bytes (under ByteWriter; EBSPWriter/Writer over a failing io.Writer are not modelled). "
-                  "FixedSliceWriter.WriteString, Reader.ReadRemainingBytes and the slice readers are not modelled.",
+                  "its generated inputs. The failing io.Writer is modelled as 'accepts k one-byte writes, then fails' (harness type failAt, "
+                  "also in a transient variant that a writer keeping its first error cannot tell apart); short writes without an error and "
+                  "io.Reader failures other than EOF are not modelled. C13Model.write_ue / read_se (imported by C15..C19) are kept as they "
+                  "were: they mirror the code for values <= 2^57 - 2 resp. codeNum < 2^64 - 1 (theorems C13_faultfree_is_writer, "
+                  "C13_se_uint_boundary); the repaired / wrapping behaviour lives in C13ModelExt (write_ue_x, read_se64). Go uint is taken "
+                  "to be 64 bits. FixedSliceWriter.WriteString, Reader.ReadRemainingBytes and the slice readers are not modelled.",
 }
 
 
@@ -39,12 +54,14 @@ def run(ctx):
     ctx.cov["trusted_base"] = common.TRUSTED_BASE_COMMON + [
         "model: coq/c13/C13Model.v + C13ModelExt.v are a hand transcription of bits/ebspwriter.go, bits/ebspreader.go, "
         "bits/writer.go, bits/reader.go, bits/fixedslicewriter.go (all methods but WriteString), bits/bytewriter.go",
+        "harness/c13/ext2.go failAt (the io.Writer under EBSPWriter/Writer: accepts k bytes, then fails - permanently or once)",
         "harness/c13/ext.go limitedWriter (the io.Writer under ByteWriter: accepts N bytes, then fails after a partial write)",
         "spec: coq/c13/C13Spec.v escape/unescape/forbidden (H.264 7.4.1 rule, written by hand)",
     ]
-    ctx.assumptions += ["the io.Writer under EBSPWriter/Writer never fails; under ByteWriter it accepts a fixed number of bytes; "
-                        "the io.Reader is a bytes.Reader (EOF is the only error)",
-                        "values are Go uint (64 bit); widths 0..32 are exercised"]
+    ctx.assumptions += ["the io.Writer under EBSPWriter/Writer either never fails or fails from the k-th one-byte write on (no short "
+                        "writes without error); under ByteWriter it accepts a fixed number of bytes; the io.Reader is a bytes.Reader "
+                        "(EOF is the only error)",
+                        "values are Go uint (64 bit); widths 0..70 are exercised"]
     # 1 harness from the current /repo tree + extracted model
     exe, model = build(ctx)
     # 2 proofs
@@ -102,7 +119,13 @@ def run(ctx):
                        "search: round trip against an independent bit packer + naive escape, forbidden-pattern scan, byte AND bit counters "
                        "after every value, MoreRbspData true before / false at the trailing bits and position-neutral, trailing bits "
                        "accepted / malformed ones rejected, two's complement through ReadSigned, whole bytes out without Flush, "
-                       "FixedSliceWriter/ByteWriter prefix-at-capacity, stickiness and big-endian oracles" % (exh, n, n, n))
+                       "FixedSliceWriter/ByteWriter prefix-at-capacity, stickiness and big-endian oracles; C13b: every width 0..70 after "
+                       "0..7 pending bits (writers and readers, exhaustive), %d op sequences with widths 0..70 / junk above the width / ue "
+                       "and se over the whole uint range over a sink failing at byte k, readers on zero-heavy streams (prefixes of 50..72 "
+                       "zero bits) and after EOF; search: round trip for widths <= 57 and ue <= 2^57-2 against the packer with junk above the "
+                       "width, every ue value coded exactly or refused cleanly (hang probe for the maximal uint), delivered bytes = prefix "
+                       "of the fault-free output under a permanently or transiently failing sink, sticky read errors with frozen counters"
+                       % (exh, n, n, n, n))
 
 
 def replay(ctx, path):
